@@ -285,7 +285,10 @@ class Renderer:
         for i, it in enumerate(f.get("body", [])):
             for l in self.item(i, it, mod, imports):
                 lines.append(ind + l)
-        parts = [f"str({p})" for p, _ in f.get("params", [])] + [f"str(_{i})" for i in range(len(f.get("body", [])))]
+        def pstr(p):
+            # '*rest' / '**kw' catch-all parameters
+            return f"str(sorted({p[2:]}.items()))" if p.startswith("**") else f"str({p.lstrip('*')})"
+        parts = [pstr(p) for p, _ in f.get("params", [])] + [f"str(_{i})" for i in range(len(f.get("body", [])))]
         if f.get("cls"):
             parts.append("self.v")
             parts += [f"str(self.A{i})" for i in range(len(f.get("clsattr", [])))]
